@@ -339,10 +339,10 @@ func ruleC12Bound(cx *Ctx) {
 					if ret, isRet := in.(*ssa.Return); isRet && len(ret.Results) == 1 {
 						if b, isB := ret.Results[0].(*ssa.BinOp); isB {
 							l, r := b.X, b.Y
-							if c, isC := l.(*ssa.Call); isC && c.Call.StaticCallee() != nil && origin(c.Call.StaticCallee()).Name() == "ExpiresAt" && r == ssa.Value(he.Params[1]) && b.Op == token.LEQ {
+							if c, isC := l.(*ssa.Call); isC && c.Call.StaticCallee() != nil && origin(c.Call.StaticCallee()).Name() == "ExpiresAt" && r == ssa.Value(bparam(he, 1)) && b.Op == token.LEQ {
 								ok = true
 							}
-							if c, isC := r.(*ssa.Call); isC && c.Call.StaticCallee() != nil && origin(c.Call.StaticCallee()).Name() == "ExpiresAt" && l == ssa.Value(he.Params[1]) && b.Op == token.GEQ {
+							if c, isC := r.(*ssa.Call); isC && c.Call.StaticCallee() != nil && origin(c.Call.StaticCallee()).Name() == "ExpiresAt" && l == ssa.Value(bparam(he, 1)) && b.Op == token.GEQ {
 								ok = true
 							}
 						}
@@ -378,7 +378,7 @@ func ruleC12Bound(cx *Ctx) {
 					if c, isC := in.(*ssa.Call); isC && c.Call.StaticCallee() != nil && origin(c.Call.StaticCallee()).Name() == "IsAlive" {
 						sawAlive = true
 					}
-					if b, isB := in.(*ssa.BinOp); isB && b.Op == token.GTR && b.Y == ssa.Value(fr.Params[1]) {
+					if b, isB := in.(*ssa.BinOp); isB && b.Op == token.GTR && b.Y == ssa.Value(bparam(fr, 1)) {
 						if c, isC := b.X.(*ssa.Call); isC && c.Call.StaticCallee() != nil && origin(c.Call.StaticCallee()).Name() == "RefreshableAt" {
 							sawCmp = true
 						}
